@@ -8,3 +8,6 @@ pub assume_specification<T, A: core::alloc::Allocator, F: FnMut() -> T>[ Vec::<T
         final(v)@.len() == new_len,
         forall|i: int| 0 <= i < new_len && i < old(v)@.len() ==> final(v)@[i] == old(v)@[i],
         forall|i: int| old(v)@.len() <= i < new_len ==> f.ensures((), #[trigger] final(v)@[i]);
+
+pub assume_specification<'a, T: Copy>[ Option::<&'a T>::copied ](o: Option<&'a T>) -> (r: Option<T>)
+    ensures r == (match o { Some(v) => Some(*v), None => None::<T> });
